@@ -44,16 +44,16 @@ Outcome(cc) == Eval(RuleOf(cc), DataOf(cc))
 \* the key value actually used (for computed keys: as evaluated by the specification)
 UsedKey(cc) == IF cc.form = 4 THEN Null
                ELSE IF cc.form = 5 THEN Eval(KE11[cc.k], DataOf(cc)).v ELSE K11[cc.k]
-Scope(cc) == IF PinnedKey(UsedKey(cc)) THEN <<"C11">> ELSE <<>>
+Scope(cc) == IF PinnedKeyOn(UsedKey(cc), DataOf(cc)) THEN <<"C11">> ELSE <<>>
 
 \* -------- invariants on the specification
 PresentBeatsDefault ==
-  phase = "done" /\ c.form = 2 /\ PinnedKey(K11[c.k]) =>
+  phase = "done" /\ c.form = 2 /\ PinnedKeyOn(K11[c.k], DataOf(c)) =>
     LET r == Lookup(DataOf(c), K11[c.k])
         o == Outcome(c)
     IN o.ok /\ SameValue(o.v, IF r.found THEN r.v ELSE Eval(DF11[c.df], DataOf(c)).v)   \* the default is an expression, evaluated once
 AbsentIsNull ==
-  phase = "done" /\ c.form = 1 /\ PinnedKey(K11[c.k]) =>
+  phase = "done" /\ c.form = 1 /\ PinnedKeyOn(K11[c.k], DataOf(c)) =>
     LET r == Lookup(DataOf(c), K11[c.k])
         o == Outcome(c)
     IN o.ok /\ SameValue(o.v, IF r.found THEN r.v ELSE Null)
